@@ -816,6 +816,20 @@ func TestKillPrefixes(t *testing.T) {
 				one(KillCase{Tasks: gprog, Init: ginit, Steps: steps})
 			}
 		}
+		// three matched files on two CPUs (more files than hash workers): every file counts, also the last
+		if pi == 0 {
+			tprog := []KTask{{Name: "A", Globs: []string{"*.txt"}}, {Name: "B", Files: []string{"f2.txt"}, Deps: []string{"A"}}}
+			tinit := map[string]string{"f1.txt": "0", "f2.txt": "0", "zlast.txt": "0", "m.txt": "0"}
+			for _, cpus := range []string{"0,1", "0", "0,1,2"} {
+				for _, f := range []string{"zlast.txt", "f1.txt", "m.txt"} {
+					for _, mid := range []KStep{{Op: "run", Tasks: []string{"B"}, Kill: "A", CutAbs: -1}, {Op: "run", Tasks: []string{"B"}, Kill: "B", CutAbs: -1}} {
+						steps := []KStep{run("B"), mid, w(f, "1"), run("B"), w(f, "0"), run("B")}
+						s.Class("enumerated_more_files_than_cpus")
+						one(KillCase{Tasks: tprog, Init: tinit, Steps: steps, Cpus: cpus})
+					}
+				}
+			}
+		}
 		// every byte prefix of the cache file after the second run (length probed once: <= 200 bytes)
 		for k := 0; k < 200; k += step {
 			for ci, cont := range conts {
